@@ -381,6 +381,25 @@ def parts(tier):
                 bounds={"max_tiers": 3, "depth": "fixed point" if not quick else 4}, max_depth=None if not quick else 4),
     ]
 
+    def tiny_ops(m):
+        for nm in c12.NAMES:
+            yield ("rm", nm)
+        for a in c12.NAMES:
+            for b in c12.NAMES:
+                yield ("ren", a, b)
+        for a in c12.NAMES[:2]:
+            for sl in c12.TINY + (0,):
+                for mode in ("silence", "error"):
+                    yield ("rep", a, a, sl, mode)
+        yield from TG_EXTRA
+
+    tiny_seeds = [((("a", 12),), 0.1, 1.3), ((("b", 7), ("a", 12)), 0.1, 1.3), ((("a", 13),), D.BIG[0], D.BIG[-1]), ((("a", 13), ("b", 9)), D.BIG[0], D.BIG[-1])]
+    ps.append(BfsPart("textgrid-operations-tiny-intervals", lambda: tiny_seeds, tiny_ops, _tg_step,
+                      rule="every mutator (removeTier, renameTier over all name pairs, replaceTier) and the %d copy / query / save / invalid-option calls on "
+                           "textgrids that hold a tier with a legitimate interval of tiny RELATIVE duration (0.3 .. 0.1+0.2; 7.8 ms at 2**40), assembled "
+                           "with insertEntry: a call either succeeds like the list model or fails leaving everything as it was" % len(TG_EXTRA),
+                      bounds={"depth": 1}, max_depth=1))
+
     hseeds = [("I", "t", 0.0, 4.0, D.labelled(x)) for x in D.interval_sets(D.unit_grid(5), 2)] + \
              [("P", "t", 0.0, 4.0, D.labelled_points(x)) for x in D.point_sets(D.unit_grid(5), 2)]
     hothers = {"I": tierops.OTHERS_I, "P": tierops.OTHERS_P}
